@@ -132,8 +132,19 @@ impl Model {
                     })
             }
             Op::CountOnes { row, a, b } | Op::RowIter { row, a, b } => {
-                // never the full width (see DESIGN: end_col = w is outside any documented contract)
-                let lim = if dense_impl { self.w.saturating_sub(1) } else { self.w - self.dense.max(1).min(self.w) };
+                // The dense count_ones handles the full width (it never touches the word after the
+                // row); the dense get_row_iter does not (end_col = w with w % 64 == 0 slices one word
+                // past the last row: undocumented, excluded - see DESIGN). The sparse type rejects
+                // anything beyond the first dense column.
+                let lim = if dense_impl {
+                    if matches!(op, Op::CountOnes { .. }) {
+                        self.w
+                    } else {
+                        self.w.saturating_sub(1)
+                    }
+                } else {
+                    self.w - self.dense.max(1).min(self.w)
+                };
                 row < self.h && a <= b && b <= lim && self.defined(row, a, b)
             }
             Op::OnesInCol { col, a, b } => {
@@ -603,17 +614,19 @@ pub fn execute(hist: &History, probes: &mut Counters, states: Option<&mut HashSe
 // generation
 
 const WIDTHS: [usize; 18] = [3, 5, 17, 40, 63, 64, 65, 66, 100, 127, 128, 129, 130, 191, 192, 193, 200, 300];
+/// wider matrices (4-9 words per row), drawn less often because every sweep costs O(h*w)
+const WIDE: [usize; 9] = [255, 256, 257, 319, 320, 321, 384, 449, 513];
 
 pub fn generate(seed: u64) -> History {
     let mut r = Rng::new(seed);
-    let w = *r.pick(&WIDTHS);
+    let w = if r.chance(1, 10) { *r.pick(&WIDE) } else { *r.pick(&WIDTHS) };
     let h = if r.chance(1, 6) { w + r.urange(20, 120) } else { w + r.usize_below(20) };
     let hint = match r.below(4) {
         0 => 1 + r.usize_below((w - 1).min(3)),
         1 => (1 + r.usize_below((w - 1).min(70))).max(1),
         2 => {
             // near a word boundary so that freezing crosses it
-            let base = *r.pick(&[60usize, 62, 63, 64, 65, 126, 127, 128]);
+            let base = *r.pick(&[60usize, 62, 63, 64, 65, 126, 127, 128, 190, 191, 192, 254, 255, 256]);
             base.min(w - 1).max(1)
         }
         _ => 1 + r.usize_below(w - 1),
@@ -698,7 +711,8 @@ pub fn generate(seed: u64) -> History {
             }
             2 | 3 => {
                 // mostly inside the common envelope; sometimes up to the dense back-end's own limit
-                let lim = if r.chance(1, 4) { md.w.saturating_sub(1) } else { md.w - md.dense.max(1).min(md.w) };
+                // (full width for count_ones, one less for the row iterator: see admissible_for)
+                let lim = if r.chance(1, 4) { md.w } else { md.w - md.dense.max(1).min(md.w) };
                 let row = r.usize_below(md.h);
                 let a = r.usize_below(lim + 1);
                 let b = match r.below(4) {
